@@ -27,4 +27,38 @@ CHECKS = [
           "Hostile policy",
   "note": NOTE},
 ]
+
+def _e(i, tech, text):
+    CHECKS.append({"id": i, "technique": tech, "text": text, "note": NOTE})
+
+
+_e("C03", "reference-model monitor (independent min-plus closure and exact-hop table) on exhaustive small graphs",
+   "every distance routine is compared entry by entry with an independent Floyd-Warshall closure; hop counts must be the "
+   "hop count of some minimum-length path (exact-hop Bellman-Ford table); reachability flags, zero diagonals, charpath / "
+   "efficiency_bin / efficiency_wei / rout_efficiency against mean and mean inverse distance; exact arithmetic on "
+   "integer, dyadic and near-tie lengths")
+_e("C08", "reference-model monitor (brute-force shortest-path counting) on exhaustive small graphs",
+   "node and edge betweenness against sigma(s,t|v)/sigma(s,t) counted by brute force on an independent closure; node "
+   "vector of the edge routines; sum identities on binary graphs; exact ties, near-ties (1e-6 apart) and unreachable pairs")
+_e("C09", "reference-model monitor (O(n^3) triple enumeration)",
+   "per-node clustering (bu, bd Fagiolo, wu/wd Onnela, signed default/Zhang/Costantini) and transitivity against direct "
+   "enumeration; exact 0.0 for nodes without triangles; unit interval for weights in [0,1]")
+_e("C10", "metamorphic pair monitor (sibling routines on the same matrix)",
+   "32 documented variant pairs are evaluated on every 0/1 matrix of the exhaustive families, random 0/1 matrices and "
+   "symmetric weighted matrices; both sides are the real code, so drift between variants is caught even where no "
+   "external oracle is run")
+_e("C12", "runtime post-condition monitor: edge-by-edge validation of every returned path",
+   "retrieve_shortest_path for ALL ordered pairs of every matrix and transform, navigation_wu paths against L and D, "
+   "failed navigations, diagonal, success ratio")
+_e("C15", "reference-model monitor (subset enumeration and independent one-node peeling)",
+   "k-core / s-core matrices and sizes for every k (s on a grid containing the exact occurring strengths), nestedness, "
+   "coreness vectors and core sizes, peel order/level validity")
+_e("C16", "reference-model monitor (BFS components) with edge-order adversaries",
+   "co-membership, labels 1..m, sizes, number_of_components, agreement with distance_bin / breadthdist / reachdist, "
+   "rejection of asymmetric input (asymmetric support and asymmetric weights on a symmetric support)")
+_e("C17", "runtime post-condition monitor with exact-rational expected counts",
+   "threshold_proportional for every p=j/64 (p x N exactly representable, round-half-up demanded strictly), strongest "
+   "kept, values unchanged, symmetry, diagonal; threshold_absolute at and between occurring weights; binarize / "
+   "normalize / invert (and its involution) / weight_conversion dispatch; copy=True / copy=False object semantics")
+
 NOT_APPLICABLE = []
